@@ -58,14 +58,14 @@ def ms3(F, R):
             if c.get("krate") == "microstack" and c.get("name") == "from_vec":
                 n += 1
                 a = b.call_args(t, site)[0]
-                ln = G.literal_len(deref_addr(b, a))
+                ln = G.literal_len(deref_addr(b, a), b)
                 if ln is None or ln > 16:
                     R.bad("MS3", "MS3/%s/from_vec-not-a-small-literal" % fn_key(b), b.where(site),
                           "Stack::from_vec (which pushes without any capacity check) is called on something other than a literal of at "
                           "most 16 elements: a longer vector writes past the stack's array", {"arg": show(a, b)})
                 else:
                     R.ok("MS3", b.where(site), "Stack::from_vec on a literal of %d element(s)" % ln)
-    R.floor("MS3", "Stack::from_vec sites", n, 2)
+    R.floor("MS3", "Stack::from_vec sites", n, 1)
 
 
 def ms4(F, R):
